@@ -3,7 +3,7 @@
    conclusions are visible.  Everything is computed (vm_compute) on states reached from init. *)
 From Coq Require Import ZArith Lia.
 From AV Require Import Base Machine ScopeFrames DeliverInv TreeInv DeliverAlive PotentialInv TreeStep KernelInv
-  PotentialThms DebtInv DebtThms CycleThms ActWalk ActThms ChainWindow ReceiptWalk ReceiptRun NativeHonoured NativeAbsorbed.
+  PotentialThms DebtInv DebtThms CycleThms CycleMore ActWalk ActThms ChainWindow ReceiptWalk ReceiptRun NativeHonoured NativeAbsorbed.
 
 Ltac vc := vm_compute; reflexivity.
 
@@ -253,4 +253,44 @@ Proof.
   split; [split; vm_compute; lia|]. split; [vc|].
   split; [apply (clean_chain2 _ 2 2 1); vc|]. split; [apply (clean_chain2 _ 2 2 1); vc|].
   repeat split; vc.
+Qed.
+
+(* ====================================================================================================== *)
+(* C03: checkpoint under the FIFO loop with a bystander queued in front (audit 2, 2.1)                       *)
+(* ====================================================================================================== *)
+(* task 1 enters scope 1; a second root task 2 goes into a checkpoint (its step is queued first); task 1 cancels its own
+   scope (the delivery skips the running task and re-schedules itself) and goes into a checkpoint:
+   ready = [HStep 2; HDeliver 1; HStep 1].  The head run resumes the bystander task 2 (frame CYield YCheckpoint) *)
+Definition ckb_ops : list op :=
+  [ANewRoot; ANewScope 1 None false; AEnter 1 1; ANewRoot; AYield 2; ACancel 1 1; AYield 1].
+
+Example ckb_premises :
+  let s := final step init ckb_ops in
+  reach_ok s /\ running s <> Some 1 /\ s_cancelled (scopes s 1) = true /\ s_host (scopes s 1) <> None /\
+  reaches s 1 1 /\ k_started (tasks s 1) = true /\ k_waiter (tasks s 1) = None /\
+  k_ctl (tasks s 1) = CYield YCheckpoint /\ ready s = [HStep 2; HDeliver 1] ++ HStep 1 :: [] /\
+  ~ In (HStep 1) [HStep 2; HDeliver 1] /\ In (HDeliver 1) [HStep 2; HDeliver 1] /\
+  k_ctl (tasks s 2) = CYield YCheckpoint /\
+  CycleMore.cycle_okc 1 (length (ready s)) s.
+Proof.
+  cbv zeta. set (s := final step init ckb_ops).
+  assert (R : reach_ok s) by (exists ckb_ops; split; [vc|reflexivity]).
+  assert (E1 : ready s = [HStep 2; HDeliver 1; HStep 1]) by vc.
+  refine (conj R _). repeat (match goal with |- _ /\ _ => split end).
+  - assert (E : running s = None) by vc. rewrite E. intros H; discriminate H.
+  - vc.
+  - assert (E : s_host (scopes s 1) = Some 1) by vc. rewrite E. intros H; discriminate H.
+  - split; [vc|]. exists 1. split; [vc|apply vis_here].
+  - vc.
+  - vc.
+  - vc.
+  - exact E1.
+  - intros [H|[H|[]]]; discriminate H.
+  - right. now left.
+  - vc.
+  - rewrite E1. cbn [length CycleMore.cycle_okc]. rewrite E1. right. split.
+    { split; [vc|]. split; [intros H; discriminate H|]. split; [intros H; discriminate H|vc]. }
+    assert (E2 : ready (run_head s) = [HDeliver 1; HStep 1]) by vc. rewrite E2. right. split.
+    { split; [vc|]. split; [intros H; discriminate H|exact I]. }
+    assert (E3 : ready (run_head (run_head s)) = [HStep 1; HDeliver 1]) by vc. rewrite E3. now left.
 Qed.
